@@ -86,12 +86,27 @@ on_hang(const char* k)
     _exit(0);
 }
 
+// The streamer thread of the current run and the number of lock releases / cv waits it has made: an upper bound (by a factor
+// of two or three) of the frames it can have generated since this start - "the count restarts with each start".
+static int streamer_tid = -1, caller_tid = -1;
+static long streamer_rel = 0;
 static void
 lock_hook(void* lock, int is_cv)
 {
     (void)lock;
     (void)is_cv;
     cur_seq[vs_self()] = ++gseq;
+    if (vs_self() == streamer_tid)
+        streamer_rel++;
+}
+static void
+thread_hook(int t, const char* name, int is_exit)
+{
+    (void)name;
+    if (!is_exit && t != caller_tid && t != 0) {
+        streamer_tid = t;
+        streamer_rel = 0;
+    }
 }
 
 static void
@@ -151,8 +166,8 @@ caller(void* arg)
                     filled = !same;
                 }
             }
-            snprintf(b, sizeof b, "{\"e\":\"GetFrameRet\",\"rc\":%d,\"nbytes\":%ld,\"hw\":%ld,\"t\":%d,\"exp\":%ld,\"past\":%s,\"filled\":%s}", rc,
-                     (long)nb, hw, me, expb, past ? "true" : "false", filled ? "true" : "false");
+            snprintf(b, sizeof b, "{\"e\":\"GetFrameRet\",\"rc\":%d,\"nbytes\":%ld,\"hw\":%ld,\"t\":%d,\"exp\":%ld,\"past\":%s,\"filled\":%s,\"gen\":%ld}", rc,
+                     (long)nb, hw, me, expb, past ? "true" : "false", filled ? "true" : "false", streamer_rel);
             emit(cur_seq[me], b);
             if (rc == 0 && nb > 0)
                 frames_got++;
@@ -281,6 +296,7 @@ main(int argc, char** argv)
     logger_set_reporter(reporter);
     vs_init(&cfg, on_hang);
     vs_set_lock_hook(lock_hook);
+    vs_set_thread_hook(thread_hook);
     cam = simcam_make_camera((enum BasicDeviceKind)kind);
     if (!cam)
         return 2;
@@ -296,7 +312,7 @@ main(int argc, char** argv)
     struct ImageShape shape;
     cam->get_shape(cam, &shape);
     img_bytes = bytes_of_image(&shape);
-    vs_spawn("caller", caller, 0);
+    caller_tid = vs_spawn("caller", caller, 0);
     vs_activate(1);
     controller();
     if (running) { // never leave the streamer running at the end of a program
